@@ -355,7 +355,7 @@ func runC15(ctx *core.Ctx) {
 	ctx.Res.Exhaustive = true
 
 	// 2. seeded random: mostly valid projects on ≤ 6 services, histories of ≤ 5 operations
-	for i := 0; i < ctx.Pick(30000, 600000); i++ {
+	for i := 0; i < ctx.Pick(20000, 500000); i++ {
 		st, all := c15RandProject(ctx.Rng, false)
 		n := 1 + ctx.Rng.Intn(5)
 		var ops []c15Op
@@ -370,7 +370,7 @@ func runC15(ctx *core.Ctx) {
 	}
 
 	// 3. malformed stream: cycles, self and dangling dependencies, overlapping sets, unknown and empty names
-	for i := 0; i < ctx.Pick(8000, 150000); i++ {
+	for i := 0; i < ctx.Pick(5000, 120000); i++ {
 		st, all := c15RandProject(ctx.Rng, true)
 		n := 1 + ctx.Rng.Intn(5)
 		var ops []c15Op
